@@ -3,6 +3,7 @@
 package electricpb
 
 import (
+	"context"
 	"time"
 
 	"google.golang.org/grpc/codes"
@@ -263,5 +264,34 @@ func VT_C19_Concurrent() {
 		}
 	}
 	vt.Assert(normals <= 1, "concurrent:at-most-one-normal-mode")
+	vt.Reach("done")
+}
+
+// Through the MemorySettingsApi server: two concurrent allow-missing deletes of one existing mode both succeed (an
+// absent mode is fine when allow_missing is set, whoever removes it first), and a plain delete of an absent mode is NotFound.
+func VT_C19_ServerConcurrentDeleteAllowMissing() {
+	m := &Model{
+		modes:      resource.NewCollection(resource.WithInitialRecord(vtModeIDs[0], &traits.ElectricMode{Id: vtModeIDs[0], Title: "t"})),
+		activeMode: resource.NewValue(resource.WithInitialValue(&traits.ElectricMode{})),
+		demand:     resource.NewValue(resource.WithInitialValue(&traits.ElectricDemand{})),
+		clock:      &vtClk{now: vt.Time("now")},
+	}
+	srv := NewModelServer(m)
+	errs := make([]error, 2)
+	done := make(chan struct{}, 2)
+	for i := 0; i < 2; i++ {
+		i := i
+		go func() {
+			_, errs[i] = srv.DeleteMode(context.Background(), &DeleteModeRequest{Id: vtModeIDs[0], AllowMissing: true})
+			done <- struct{}{}
+		}()
+	}
+	<-done
+	<-done
+	vt.Assert(vt.And(errs[0] == nil, errs[1] == nil), "allow-missing-delete-succeeds-whoever-removes-the-mode-first")
+	_, ok := m.FindMode(vtModeIDs[0])
+	vt.Assert(!ok, "mode-is-gone")
+	_, err := srv.DeleteMode(context.Background(), &DeleteModeRequest{Id: vtModeIDs[0]})
+	vt.Assert(status.Code(err) == codes.NotFound, "plain-delete-of-an-absent-mode-is-not-found")
 	vt.Reach("done")
 }
